@@ -10,7 +10,7 @@ META = {
 }
 MANIFEST_ENTRY = {
     "level_text": 'Deductive proof of the flag condition (both directions) on all exits of update.',
-    "level_note": "Reals not floats; flatten is proved for one level of liquidation (sub-strategies without grandchildren), deeper trees rest on the recursive call (A-IND) and on the bounded nested stand-in; float-level behaviour (TOL = 1e-16) only in the bounded stand-in.",
+    "level_note": "Reals not floats; flatten's close-out loops are proved for one level of liquidation (sub-strategies without grandchildren); for deeper trees the pre-loop is proved to hand every sub-strategy that has children to its own flatten() exactly once whatever its value (the recursive call through flatten's own contract, A-IND) and the bounded nested stand-in runs real nested trees; float-level behaviour (TOL = 1e-16) only in the bounded stand-in.",
     "technique": "contract-based deductive verification: VCs from the real AST (pyvc) discharged by z3/cvc5; loop invariants with ghost sums; lemmas over contract clauses",
 }
 
@@ -23,6 +23,7 @@ def tasks(tier, seed):
         dict(kind="custom", module="props.c04_tasks", fn="setup_clauses"),
         func("bt.backtest.Backtest.run"),
         func("bt.core.StrategyBase.flatten"),
+        func("bt.core.StrategyBase.flatten", variant="subs"),     # nested trees: every sub-strategy that has children is handed to its own flatten(), whatever its value
         func("bt.core.StrategyBase.close"),
         *UPDATE_ALL,
     ]
